@@ -303,6 +303,11 @@ func (c *RollingFileAppender) clearExpiredFiles() {
 		if !strings.HasPrefix(entry.Name(), c.FileName+".") {
 			continue
 		}
+		// Only files this appender itself produces: "<name>.<yyyyMMddHHmmss>".
+		if suffix := entry.Name()[len(c.FileName)+1:]; len(suffix) != 14 ||
+			strings.Trim(suffix, "0123456789") != "" {
+			continue
+		}
 		info, err := entry.Info()
 		if err != nil {
 			continue
